@@ -4,17 +4,13 @@ CONSTANTS
   Targets = {"setfl","DL_POLY_EAM","excel_eam"}
   MaxSp = 2
   MaxPots = 0
-  NRs = {2,5}
-  NRhos = {2,4}
-  Faults = FALSE
+  NRs = {3}
+  NRhos = {2}
+  Faults = TRUE
   FlushFixed = TRUE
 INVARIANT TypeOK
 INVARIANT NoStuck
-INVARIANT C03_ElementsOnce
-INVARIANT C03_ReaderSeesModel
-INVARIANT C03_ValueCount
-INVARIANT C05_DeclaredCountIsBlockCount
-INVARIANT C05_BlockCensus
-INVARIANT C19_Excel
+INVARIANT C17_AllOrNothing
+INVARIANT C17_WholeOrNothing
 INVARIANT C17_DoneMeansWhole
 INVARIANT C17_NoFaultNoRaise
